@@ -10,6 +10,8 @@ def dispatch (prop : String) (ins outs : List String) : Verdict :=
   | "C05" => C05.run ins outs
   | "C07" => C07.run ins outs
   | "C18" => C18.run ins outs
+  | "C10" => C10.run ins outs
+  | "C06" => C06.run ins outs
   | _ => .bad ("unknown property " ++ prop)
 
 partial def loop (h : IO.FS.Stream) (out : IO.FS.Stream) (n : Nat) : IO Unit := do
